@@ -75,11 +75,42 @@ theorem avzPlace_move (N : ℕ) (trace : List ℝ) (x : ℝ) (m i : ℕ) (hmi : 
   rw [this, Nat.cast_sub hmi]
   ring_nf
 
+/-- `np.round(·, 6)` commutes with adding a whole number of samples -/
+theorem askRound6_add_nat (q : ℝ) (m : ℕ) : askRound6 (q + m) = askRound6 q + m := by
+  unfold askRound6
+  simp only [Rfloor, RofInt]
+  have : (q + (m : ℝ)) * 1000000 + 0.5 = (q * 1000000 + 0.5) + ((m * 1000000 : ℕ) : ℝ) := by
+    push_cast; ring
+  rw [this, Int.floor_add_natCast]
+  push_cast
+  ring
+
+/-- the repair F21: within half a micro-sample of a whole sample `k` the rounded quotient is exactly `k`, so its
+floor is `k` (whereas `⌊k - ε⌋ = k - 1` for every `0 < ε ≤ 1`) -/
+theorem floor_askRound6_near_int (k : ℤ) (e : ℝ) (h1 : -(5e-7 : ℝ) ≤ e) (h2 : e < 5e-7) :
+    Rfloor (askRound6 ((k : ℝ) + e)) = k := by
+  unfold askRound6
+  simp only [Rfloor, RofInt]
+  have hf : ⌊((k : ℝ) + e) * 1000000 + 0.5⌋ = k * 1000000 := by
+    rw [Int.floor_eq_iff]
+    push_cast
+    constructor <;> nlinarith
+  rw [hf]
+  push_cast
+  rw [mul_div_assoc, div_self (by norm_num), mul_one]
+  exact Int.floor_intCast k
+
+theorem floor_sub_small (k : ℤ) (e : ℝ) (h1 : 0 < e) (h2 : e ≤ 1) : Rfloor ((k : ℝ) - e) = k - 1 := by
+  simp only [Rfloor]
+  rw [Int.floor_eq_iff]
+  push_cast
+  constructor <;> linarith
+
 theorem avz_move (times : List ℝ) (E em had psi dist n t0 : ℝ) (m i : ℕ)
     (hdt : gridDt times ≠ 0) (hmi : m ≤ i) (hi : i < 2 * (times.length / 2))
-    (h1 : ¬ (Rfloor ((t0 - times.getD 0 0) / gridDt times) - ((2 * (times.length / 2) / 2 : ℕ) : ℤ)).natAbs
-            > 2 * (times.length / 2))
-    (h2 : ¬ (Rfloor ((t0 + m * gridDt times - times.getD 0 0) / gridDt times)
+    (h1 : ¬ (Rfloor (askRound6 ((t0 - times.getD 0 0) / gridDt times))
+              - ((2 * (times.length / 2) / 2 : ℕ) : ℤ)).natAbs > 2 * (times.length / 2))
+    (h2 : ¬ (Rfloor (askRound6 ((t0 + m * gridDt times - times.getD 0 0) / gridDt times))
               - ((2 * (times.length / 2) / 2 : ℕ) : ℤ)).natAbs > 2 * (times.length / 2)) :
     (avzValues times E em had psi dist n (t0 + m * gridDt times)).getD i 0
       = (avzValues times E em had psi dist n t0).getD (i - m) 0 := by
@@ -89,7 +120,7 @@ theorem avz_move (times : List ℝ) (E em had psi dist n t0 : ℝ) (m i : ℕ)
       = (t0 - times.getD 0 0) / gridDt times + (m : ℝ) := by
     field_simp
     ring
-  rw [hx] at h2 ⊢
+  rw [hx, askRound6_add_nat] at h2 ⊢
   apply avzPlace_move
   · exact hmi
   · rw [avzCentred_length]; exact hi
@@ -147,7 +178,7 @@ theorem avz_oncone_linear (times : List ℝ) (lam E em psi dist n t0 : ℝ) (hps
 
 /-- `not (np.abs(shift) > len(trace))` in `AVZAskaryanSignal.get_signal` (`len(trace) = 2⌊N/2⌋`) -/
 def avzInRange (times : List ℝ) (t0 : ℝ) : Prop :=
-  ¬ (Rfloor ((t0 - times.getD 0 0) / gridDt times) - ((2 * (times.length / 2) / 2 : ℕ) : ℤ)).natAbs
+  ¬ (Rfloor (askRound6 ((t0 - times.getD 0 0) / gridDt times)) - ((2 * (times.length / 2) / 2 : ℕ) : ℤ)).natAbs
       > 2 * (times.length / 2)
 
 end PyrexR
